@@ -41,8 +41,8 @@ def replay_case(pid, path):
 # C02 / C03: SimCore
 
 SIMCORE_OWNER = {
-    "C02": lambda s: s.startswith(("clock.", "jump.", "end.", "livelock")) or s.endswith("/post")
-                     or s.startswith(("crash", "timeout")),
+    "C02": lambda s: (s.startswith(("clock.", "jump.", "end.", "livelock")) and not s.endswith("/wait"))
+                     or s.endswith("/post") or s.startswith(("crash", "timeout")),
     "C03": lambda s: s.startswith(("arm.", "cancel.", "wait.")) or s.endswith("/wait")
                      or s.startswith(("crash", "timeout")),
 }
@@ -168,7 +168,8 @@ def classify_queue_reject(rj):
         inv = rj["invariant"]
         owner = "C09" if inv in ("NeverFaster", "RateBound", "Fifo", "LastOK") else "C10"
         return owner, "queue.invariant." + inv
-    if "pend |-> TRUE" in state:
+    sj = rj.get("state_json") or {}
+    if sj.get("pend"):
         return "C10", "queue.drop-not-reported@" + str(name)
     if name in ("Livelock", "Abandon"):
         return "both", "queue.livelock"
@@ -186,6 +187,9 @@ def classify_queue_reject(rj):
             held[o["q"]].remove(o["id"])
         elif o["e"] == "DropCb" and last_arr and last_arr[1] == o["id"]:
             held[last_arr[0]].remove(o["id"])
+    if sj.get("held"):
+        # the specification's own view of what each queue holds (knows about silent legitimate drops)
+        held = {q: list(ids) for q, ids in sj["held"].items()}
     later = [json.loads(l) for l in rj["lines"][rj["at"]:]]
 
     def departs_later(q, pid):
